@@ -20,7 +20,8 @@ TABLE_CONSTRUCTS = ["br_loop_cond_code", "br_report_steps_code", "br_model_data_
 SHRINK = True
 RULE = ("histories = 1-2 batch_run calls on the scripted model class BM: parameter dictionaries over n, stop, ic, sc, ar, churn, k "
         "(ints, None) and two pass-through parameters (strings, dicts, lists as values) given as scalars, strings, lists, tuples, "
-        "ranges (incl. empty range -> no runs, empty list -> ValueError); iterations 1-3, max_steps 0-6, "
+        "ranges (incl. empty range -> no runs, empty list -> ValueError), numpy 0-d arrays (one value) and 1-d int arrays (their "
+        "elements, empty -> no runs); display_progress on in 15%; iterations 1-3, max_steps 0-6, "
         "data_collection_period -1/1/2/3; models that stop early, collect 0-3 times at construction and/or inside step "
         "(model-level and agent-level state changing between collects of one step), with/without "
         "agent reporters, with agent churn; a few calls with number_processes 2-3 (run in a helper process, compared with "
@@ -71,9 +72,13 @@ def _gen_param(rng, name, objects):
             return [name, "str", code(["a", "bc", "sigmoid"])]
         return [name, kind, [code(pool) for _ in range(rng.randint(1, 2))]]
     dom = {"n": [0, 1, 2, 3], "stop": [-1, 1, 2, 3, 5], "ic": [0, 1, 2, 2, 3], "sc": [0, 1, 1, 2, 2, 3], "ar": [0, 1], "churn": [0, 1], "k": [0, 1, 7]}[name]
-    kind = rng.choice(["scalar", "scalar", "list", "list", "tuple", "range"])
-    if name == "stop" and kind == "range":
+    kind = rng.choice(["scalar", "scalar", "list", "list", "tuple", "range", "np0", "np1"])
+    if name == "stop" and kind in ("range", "np0", "np1"):
         kind = "list"
+    if kind == "np0":
+        return [name, "np0", rng.choice(dom)]
+    if kind == "np1":
+        return [name, "np1", [rng.choice(dom) for _ in range(rng.choice([0, 1, 2, 2, 3]) if rng.random() < 0.1 else rng.choice([1, 2, 2, 3]))]]
     if kind == "scalar":
         return [name, "scalar", rng.choice(dom)]
     if kind == "range":
@@ -94,7 +99,7 @@ def _gen_op(rng, objects, nproc=1):
     size = 1
     for n in names:
         p = _gen_param(rng, n, objects)
-        k = 1 if p[1] in ("scalar", "str") else (len(range(*p[2])) if p[1] == "range" else len(p[2]))
+        k = 1 if p[1] in ("scalar", "str", "np0") else (len(range(*p[2])) if p[1] == "range" else len(p[2]))
         if size * max(k, 1) > 12:
             p = [n, "scalar", 1] if n not in ("tag", "obj") else None
         else:
@@ -102,7 +107,8 @@ def _gen_op(rng, objects, nproc=1):
         if p:
             params.append(p)
     iterations = rng.choice([1, 1, 2, 3]) if size <= 6 else 1
-    return ["batch", params, iterations, rng.choice([0, 1, 2, 3, 4, 5, 6]), rng.choice([-1, -1, 1, 1, 2, 3]), nproc]
+    return ["batch", params, iterations, rng.choice([0, 1, 2, 3, 4, 5, 6]), rng.choice([-1, -1, 1, 1, 2, 3]), nproc,
+            rng.random() < 0.15]        # display_progress
 
 
 def gen_cases(rng, tier):
@@ -130,7 +136,8 @@ def enumerate_cases(tier, broken=False):
                                   ["churn", "list", [0, 1]]], 1, max_steps, period, 1] for period in (-1, 1, 2, 3)]
                 yield {"objects": [], "ops": ops}
     # designs: all shapes of two parameters
-    shapes = [["scalar", 1], ["list", [0, 1]], ["tuple", [2]], ["range", [0, 3, 1]], ["range", [1, 1, 1]], ["list", []], ["list", [1, 1]]]
+    shapes = [["scalar", 1], ["list", [0, 1]], ["tuple", [2]], ["range", [0, 3, 1]], ["range", [1, 1, 1]], ["list", []], ["list", [1, 1]],
+              ["np0", 2], ["np1", [0, 1]], ["np1", []]]
     for a, b in itertools.product(shapes, repeat=2):
         for it in (1, 2):
             yield {"objects": ["s"], "ops": [["batch", [["n", *a], ["k", *b], ["tag", "str", 1000]], it, 2, 1, 1]]}
@@ -158,6 +165,12 @@ def _py_params(params, objects):
             out[name] = tuple(_decode(c, objects) for c in payload)
         elif kind == "range":
             out[name] = range(*payload)
+        elif kind == "np0":
+            import numpy as np
+            out[name] = np.array(payload)            # 0-d array: iterating it raises TypeError -> a single value
+        elif kind == "np1":
+            import numpy as np
+            out[name] = np.array(payload, dtype=int)  # 1-d array: its elements (numpy ints); may be empty -> no runs
         else:
             raise ValueError(kind)
     return out
@@ -166,10 +179,12 @@ def _py_params(params, objects):
 def _values(p, objects):
     """the statement's reading of one parameter: the list of values it stands for (None = rejected)"""
     name, kind, payload = p
-    if kind in ("scalar", "str"):
+    if kind in ("scalar", "str", "np0"):
         return [payload]
     if kind in ("list", "tuple"):
         return list(payload) if payload else None
+    if kind == "np1":
+        return list(payload)
     return list(range(*payload))
 
 
@@ -182,10 +197,15 @@ def call_batch(objects, op, nproc):
 
     if not hasattr(_tqdm, "_lock"):
         _tqdm.set_lock(threading.RLock())   # keep tqdm from creating a multiprocessing semaphore in pool workers
-    _, params, iterations, max_steps, period, _ = op
+    _, params, iterations, max_steps, period = op[:5]
+    progress = bool(op[6]) if len(op) > 6 else False
     try:
-        rows = mesa.batch_run(BM, _py_params(params, objects), number_processes=nproc, iterations=iterations,
-                              data_collection_period=period, max_steps=max_steps, display_progress=False)
+        import contextlib
+        import io
+
+        with contextlib.redirect_stderr(io.StringIO()):   # the tqdm bar of display_progress=True
+            rows = mesa.batch_run(BM, _py_params(params, objects), number_processes=nproc, iterations=iterations,
+                                  data_collection_period=period, max_steps=max_steps, display_progress=progress)
         return {"rows": rows, "error": None}
     except ValueError as e:
         return {"rows": None, "error": [E_VALUE, str(e)]}
@@ -193,7 +213,20 @@ def call_batch(objects, op, nproc):
         return {"rows": None, "error": [99, f"{type(e).__name__}: {e}"]}
 
 
+def _norm(v):
+    """numpy scalars and 0-d arrays (what parameters given as numpy arrays put into kwargs) read as plain ints"""
+    try:
+        import numpy as np
+
+        if isinstance(v, np.generic) or (isinstance(v, np.ndarray) and v.ndim == 0):
+            return v.item()
+    except ImportError:
+        pass
+    return v
+
+
 def _code(v, objects, name):
+    v = _norm(v)
     if v is None:
         return -1
     if isinstance(v, int) and not isinstance(v, bool) and name not in ("tag", "obj"):
@@ -284,7 +317,7 @@ def run_impl(case):
             failures.append({"key": key, "op": i, "what": what})
 
     for i, op in enumerate(case["ops"]):
-        _, params, iterations, max_steps, period, nproc = op
+        _, params, iterations, max_steps, period, nproc = op[:6]
         vals = [_values(p, objects) for p in params]
         names = [p[0] for p in params]
         BM.INSTANCES.clear()
@@ -311,7 +344,7 @@ def run_impl(case):
         # ---- the statement
         combos = [dict(zip(names, [_decode(c, objects) for c in combo])) for combo in itertools.product(*vals)]
         design = [(it, kw) for it in range(iterations) for kw in combos]
-        got_design = [inst.init_kwargs for inst in insts]
+        got_design = [{k: _norm(v) for k, v in inst.init_kwargs.items()} for inst in insts]
         if sorted(map(repr, got_design)) != sorted(repr(kw) for _, kw in design):
             fail("C13/batch_run/design", i, f"parameters {params} x iterations {iterations}: models were constructed with "
                                              f"{got_design}, the design is {[kw for _, kw in design]}")
@@ -327,14 +360,14 @@ def run_impl(case):
             exp_rows = _expected_rows(run_id, it, kw, hand.log, period, hand.ar)
             expected_all += exp_rows
             mine = by_run.get(run_id, [])
-            inst = insts[run_id] if run_id < len(insts) and insts[run_id].init_kwargs == kw else None
+            inst = insts[run_id] if run_id < len(insts) and got_design[run_id] == kw else None
             if inst is not None and inst.steps != hand.steps:
                 specific = True
                 key = "C13/batch_run/max-steps-exceeded" if inst.steps > max_steps else "C13/batch_run/steps-taken"
                 fail(key, i, f"run {run_id} {kw} max_steps={max_steps}: the model took {inst.steps} steps; stepping it by hand until "
                              f"it stops or has taken max_steps steps takes {hand.steps}")
             for r in mine:
-                if any(r.get(k) != v for k, v in kw.items()) or r.get("iteration") != it:
+                if any(_norm(r.get(k)) != v for k, v in kw.items()) or r.get("iteration") != it:
                     specific = True
                     fail("C13/batch_run/row-parameters", i, f"row {r} of run {run_id} does not repeat its parameters {kw} / iteration {it}")
                 lab = r.get("Step")
@@ -388,6 +421,20 @@ def run_impl(case):
                 if sorted(par) != sorted(enc):
                     fail("C13/batch_run/parallel-rows-differ", i,
                          f"number_processes={nproc} returned a different multiset of rows than number_processes=1 for {params}")
+                # every row of the parallel call, whatever the completion order: RunId, iteration and kwargs belong together
+                for e in par:
+                    rid = e[0] if e else -1
+                    if not (0 <= rid < len(design)):
+                        fail("C13/batch_run/parallel-row-incoherent", i, f"number_processes={nproc}: row with RunId {rid}, {len(design)} runs")
+                        continue
+                    it_, kw_ = design[rid]
+                    want = [rid, it_, e[2] if len(e) > 2 else -1, len(kw_)]
+                    for k_, v_ in kw_.items():
+                        want += [NAMES.index(k_), _code(v_, objects, k_)]
+                    if e[:len(want)] != want:
+                        fail("C13/batch_run/parallel-row-incoherent", i,
+                             f"number_processes={nproc}: a row labelled RunId {rid} carries iteration/kwargs {e[1:len(want)]}, run {rid} "
+                             f"is iteration {it_} with {kw_} (encoded {want[1:]})")
                 enc = par
         obs.append(_obs(enc))
     return {"obs": obs, "failures": failures}
@@ -396,16 +443,19 @@ def run_impl(case):
 # ------------------------------------------------------------------ model side
 def _c_pspec(p):
     name, kind, payload = p
-    if kind in ("scalar", "str"):
+    if kind in ("scalar", "str", "np0"):
         return f"PSingle {L.z(payload)}"
     if kind in ("list", "tuple"):
         return f"PMany {L.zlist(payload)}" if payload else "PEmptySeq"
+    if kind == "np1":
+        return f"PMany {L.zlist(payload)}"
     return f"PMany {L.zlist(list(range(*payload)))}"
 
 
 def coq_case(case):
     ops = []
-    for _, params, iterations, max_steps, period, _ in case["ops"]:
+    for op in case["ops"]:
+        _, params, iterations, max_steps, period = op[:5]
         ps = L.lst([L.pair(L.z(NAMES.index(p[0])), _c_pspec(p)) for p in params])
         ops.append(f"Batch {ps} {L.z(iterations)} {L.z(max_steps)} {L.z(period)}")
     return f"{{| b_ops := {L.lst(ops)} |}}"
@@ -413,8 +463,9 @@ def coq_case(case):
 
 def op_kinds(case):
     out = []
-    for _, params, iterations, max_steps, period, nproc in case["ops"]:
-        out.append(f"batch/nproc={nproc}/period={period}")
+    for op in case["ops"]:
+        _, params, iterations, max_steps, period, nproc = op[:6]
+        out.append(f"batch/nproc={nproc}/period={period}" + ("/progress" if len(op) > 6 and op[6] else ""))
         out += [f"param/{p[1]}" for p in params]
     return out
 
